@@ -6,6 +6,7 @@ INVARIANT Agreement
 INVARIANT FundedScript
 INVARIANT ValidIffMDistinctSigners
 INVARIANT NoForgery
+INVARIANT OneIncompleteInputSuffices
 INVARIANT PushedOnlyValid
 INVARIANT RefusedIsNoop
 INVARIANT HandOffKeeps
